@@ -353,6 +353,41 @@ def rpowC {α : Type} (o : NumOps α) (t : TP α) (c : α) := onValues t (fun x 
 def scaleDraws {α : Type} (o : NumOps α) (t : TP α) (draws : List α) : TP α × Res :=
   updateCached o { t with v := .array draws } true true
 
+/-! ### The distribution bridge (`Dist.preprocess_timepar` / `postprocess_timepar`, `poisson`, `bernoulli.call_par`)
+
+The variates a distribution hands to `postprocess_timepar` are an ndarray of whatever dtype the distribution draws in: integers for
+`ss.constant(v=10)`, `ss.randint(..., allow_time=True)` or a callable parameter returning an integer array, floating otherwise.  They
+replace `v`; `update_cached` converts them (`v*factor` / `v/factor`: NumPy promotes to the floating carrier) and the result IS
+`timepar.values` (the trailing `rvs.astype(rvs.dtype)` casts to the dtype the result already has).  For `poisson` and `bernoulli` it is
+the PARAMETER (`lam`, `p`: scalar, or the array a callable returned) that goes through the same conversion. -/
+
+inductive Draws (α : Type) where
+  | ints (l : List Int)
+  | floats (l : List α)
+
+/-- the variates in the carrier the conversion computes in (exact for integers) -/
+def Draws.toCarrier {α : Type} (o : NumOps α) : Draws α → List α
+  | .ints l => l.map (fun (i : Int) => o.ofRat (i : Rat))
+  | .floats l => l
+
+/-- `Dist.postprocess_timepar(rvs)` -/
+def postprocess {α : Type} (o : NumOps α) (t : TP α) (d : Draws α) : TP α × Res := scaleDraws o t (d.toCarrier o)
+
+/-- `poisson.preprocess_timepar` / `bernoulli.call_par`: the distribution's parameter, converted like any value of the TimePar's class -/
+def convertParam {α : Type} (o : NumOps α) (t : TP α) (p : Val α) : TP α × Res := updateCached o { t with v := p } true true
+
+/-- NumPy's float → integer cast: truncation toward zero -/
+def truncInt (q : Rat) : Int := if 0 ≤ q then q.floor else -((-q).floor)
+
+/-- NOT what the code does (kept for the sensitivity theorem `Props/C06: C06_keep_dtype_counterexample`): casting the converted
+    variates back to the dtype of the unscaled variates -/
+def postprocessKeepDtype (t : TP Rat) (d : Draws Rat) : TP Rat × Res :=
+  match d with
+  | .floats _ => postprocess ratOps t d
+  | .ints _ =>
+    let r := postprocess ratOps t d
+    ({ r.1 with values := r.1.values.map (Val.map (fun q => ((truncInt q : Int) : Rat))) }, r.2)
+
 def Val.any {α : Type} (p : α → Bool) : Val α → Bool
   | .scalar a => p a
   | .array l => l.any p
